@@ -344,7 +344,7 @@ func decodeAxioms(asserts []*Term) []*Term {
 
 var injectiveUF = map[string]bool{"HMAC": true, "SHA256": true, "SHA1": true, "hex_enc": true,
 	"b64enc_url": true, "b64enc_rawurl": true, "b64enc_std": true, "b64enc_rawstd": true,
-	"Enc": true, "pack": true, "CFBenc": true, "pack_session": true, "lz4": true, "ipstr4": true, "ipstr16": true}
+	"Enc": true, "pack": true, "CFBenc": true, "pack_session": true, "lz4": true, "ipstr4": true, "ipstr16": true, "query_escape": true}
 
 // idealAxioms instantiates collision-freeness of the ideal (injective)
 // functions on the applications that occur in the query, and the alphabet of
